@@ -2,6 +2,7 @@ package props
 
 import (
 	"fmt"
+	"math"
 	"strconv"
 	"strings"
 
@@ -26,10 +27,10 @@ func init() {
 			"Non-trivial = every in-domain case (each compares a computed value or an expected error); distinct = distinct (function, arguments).",
 		Assumptions: []string{
 			"ELEMENTAT on an empty array is not asserted (the statement gives both NULL and error); non-integral indices not asserted",
-			"textual forms (CONCAT, CHANGETYPE string) are asserted for strings, booleans and numbers whose shortest decimal text has no exponent",
+			"textual forms (CONCAT, CHANGETYPE string) are asserted for strings, booleans and finite numbers (by their decimal text, no exponent)",
 			"base / algorithm / type names are given in lower case as the statement spells them; ENCODE/HASH of NULL is not asserted (NULL is not a scalar value)",
 		},
-		Floor:         append([]string{"elementat.big"}, c18Kinds...),
+		Floor:         append([]string{"elementat.big", "if.computed-branch", "if.computed-branch.null-condition", "text.decimal"}, c18Kinds...),
 		MinNontrivial: 100,
 		Phases: []fw.Phase{
 			{Name: "fn", N: func(t fw.Tier) int { return pick(t, 30000, 1000000) }, Run: c18Run},
@@ -74,12 +75,15 @@ func c18Array(c *fw.Case, depth int) []any {
 	return a
 }
 
+// numText is the decimal text of a number: no exponent, however large or small.
 func numText(f float64) (string, bool) {
-	s := strconv.FormatFloat(f, 'g', -1, 64)
-	if strings.ContainsAny(s, "eE") {
+	if math.IsNaN(f) || math.IsInf(f, 0) {
 		return "", false
 	}
-	return s, true
+	if f == 0 {
+		return "0", true
+	}
+	return strconv.FormatFloat(f, 'f', -1, 64), true
 }
 
 func c18Run(c *fw.Case) {
@@ -264,6 +268,11 @@ func c18Run(c *fw.Case) {
 		parts := make([]string, n)
 		for i := 0; i < n; i++ {
 			v := c18Scalar(c, false)
+			if c.Chance(0.12) {
+				// numbers whose conventional float text carries an exponent
+				v = gen.Pick(c.R, []float64{1000000, 1234567, -4000000, 123456789012, 1e15, 1e-7, 2.5e-5, 1e21, 999999})
+				c.Feature("text.decimal")
+			}
 			if kind == "concat.null" && (i == n-1 || c.Chance(0.3)) {
 				v = nil
 			}
@@ -304,7 +313,25 @@ func c18Run(c *fw.Case) {
 			// a NULL condition is not true
 			cs = gen.Pick(c.R, []string{"NULL", "nokey"})
 		}
-		call = fmt.Sprintf("IF(%s, %s, %s)", cs, arg(x), arg(y))
+		xs, ys := arg(x), arg(y)
+		if c.Chance(0.35) {
+			// computed branches: calls, a path through the marker, a subquery
+			row["k2"] = 7.0
+			wrap := func(a string) string {
+				return gen.Pick(c.R, []string{"ELEMENTAT(ARRAY(" + a + "), 0)", "FIRST(ARRAY(" + a + ", 1))", "IF(`<-.t[0].k2` = 7, " + a + ", 'never')", "IF(true, " + a + ", 0)"})
+			}
+			if c.Chance(0.6) {
+				xs = wrap(xs)
+			}
+			if c.Chance(0.6) {
+				ys = wrap(ys)
+			}
+			c.Feature("if.computed-branch")
+			if cs == "NULL" || cs == "nokey" {
+				c.Feature("if.computed-branch.null-condition")
+			}
+		}
+		call = fmt.Sprintf("IF(%s, %s, %s)", cs, xs, ys)
 		want = y
 		if cond {
 			want = x
@@ -321,6 +348,10 @@ func c18Run(c *fw.Case) {
 		}
 	case "changetype.string":
 		f := float64(c.Intn(4001)-2000) / 8
+		if c.Chance(0.2) {
+			f = gen.Pick(c.R, []float64{1000000, 1234567, -4000000, 123456789012, 1e15, 1e-7, 2.5e-5, 1e21, 999999})
+			c.Feature("text.decimal")
+		}
 		t, ok := numText(f)
 		if !ok {
 			c.Discard("exponent")
@@ -527,7 +558,6 @@ func c18Run(c *fw.Case) {
 	}
 	c.Nontrivial(sql + val.Canon(row))
 }
-
 
 // c18Big: FIRST / LAST / ELEMENTAT over an array of more than a million
 // elements, at indexes whose conventional float text carries an exponent.
